@@ -384,6 +384,16 @@ def product_sample(rng, pools: list[list[Any]], cap: int) -> list[tuple[Any, ...
     return out
 
 
+# a method / builtin and the one most easily mistaken for it (the other end, the other direction, the other extremum)
+SIBLING_NAMES = {
+    "startswith": "endswith", "endswith": "startswith", "lstrip": "rstrip", "rstrip": "lstrip", "removeprefix": "removesuffix",
+    "removesuffix": "removeprefix", "keys": "values", "values": "keys", "items": "keys", "lower": "upper", "upper": "lower",
+    "min": "max", "max": "min", "any": "all", "all": "any", "sorted": "reversed", "reversed": "sorted", "find": "rfind", "index": "rindex",
+    "add": "discard", "update": "intersection_update", "union": "intersection", "append": "extend", "read_text": "read_bytes", "write_text": "write_bytes",
+    "floor": "ceil", "ceil": "floor", "log2": "log10", "log10": "log2", "isdigit": "isdecimal", "isdecimal": "isdigit",
+}
+
+
 def near_misses(params: list[tuple[str, str]], body: str, rng, k: int) -> list[str]:
     """single-edit neighbours of an idiom (another comparison operator, and<->or, swapped operands, a dropped `not`, another
     constant, another parameter of the same type, a dropped/doubled argument).  Today most of them are NOT diagnosed; a check
@@ -421,6 +431,12 @@ def near_misses(params: list[tuple[str, str]], body: str, rng, k: int) -> list[s
             sites += [(idx, "droparg"), (idx, "duparg")]
         elif isinstance(n, ast.IfExp):
             sites.append((idx, "swap"))
+        if isinstance(n, ast.Subscript) and isinstance(n.slice, ast.Slice) and n.slice.step is None and (n.slice.lower is None) != (n.slice.upper is None):
+            sites.append((idx, "sliceflip"))
+        if isinstance(n, ast.Attribute) and n.attr in SIBLING_NAMES:
+            sites.append((idx, "attrswap"))
+        if isinstance(n, ast.Name) and isinstance(n.ctx, ast.Load) and n.id in SIBLING_NAMES and n.id not in {a for a, _ in params}:
+            sites.append((idx, "nameswap"))
     rng.shuffle(sites)
     out: list[str] = []
     for idx, kind in sites:
@@ -458,6 +474,17 @@ def near_misses(params: list[tuple[str, str]], body: str, rng, k: int) -> list[s
         elif kind == "name":
             others = [x for a, ns in same_type.items() if n.id in ns for x in ns if x != n.id]
             n.id = rng.choice(others)
+        elif kind == "sliceflip":
+            sl = n.slice
+            neg = lambda e: e.operand if isinstance(e, ast.UnaryOp) and isinstance(e.op, ast.USub) else ast.UnaryOp(op=ast.USub(), operand=e)  # noqa: E731
+            if sl.lower is not None:
+                sl.lower, sl.upper = None, neg(sl.lower)  # x[a:] -> x[:-a]
+            else:
+                sl.lower, sl.upper = neg(sl.upper), None  # x[:a] -> x[-a:]
+        elif kind == "attrswap":
+            n.attr = SIBLING_NAMES[n.attr]
+        elif kind == "nameswap":
+            n.id = SIBLING_NAMES[n.id]
         elif kind == "droparg":
             (n.keywords if n.keywords and (not n.args or rng.random() < 0.5) else n.args).pop()
         elif kind == "duparg":
@@ -482,8 +509,6 @@ def build_module(rng=None, per_idiom: int = 0) -> tuple[str, list[dict[str, Any]
     if rng is not None and per_idiom:
         seen = {b for _, _, b, _ in IDIOMS}
         for c, p, b, o in IDIOMS:
-            if "return" not in b.split("\n")[0] and "\n" in b:
-                continue  # statement idioms whose result is not the first line's value: keep the originals only
             for nb in near_misses(p, b, rng, per_idiom):
                 if nb not in seen:
                     seen.add(nb)
